@@ -41,17 +41,26 @@ def mk_source(st, key, fs):
     if kind == 'list':
         return [float(v) for v in wave_array(key, n)]
     if kind == 'gen':
-        return stim.FixedWaveform(fs, wave_array(key, n))
+        return _previewed(stim.FixedWaveform(fs, wave_array(key, n)), key, n)
     if kind == 'cos2':
         tone = stim.ToneFactory(fs, fs / 7.0, 1.0 + key)
-        return stim.Cos2EnvelopeFactory(fs, n / fs, (n // 4) / fs, tone)
+        return _previewed(stim.Cos2EnvelopeFactory(fs, n / fs, (n // 4) / fs, tone), key, n)
     raise KeyError(kind)
+
+
+def _previewed(factory, key, n):
+    """every second generator source has been partly (or wholly) played by the caller before it is handed to the
+    queue (a preview / a level check): the queue must still present the queued waveform from its first sample"""
+    if (key + n) % 2 == 0:
+        factory.next([1, n // 2, n, n + 2][(key + n // 2) % 4])
+    return factory
 
 
 def expected_wave(st, key, fs):
     src = mk_source(st, key, fs)
     if st['kind'] in ARRAY_KINDS:
         return np.asarray(src, dtype=float)
+    src.reset()
     return np.asarray(src.next(st['len']), dtype=float)
 
 
